@@ -39,7 +39,7 @@ def main(argv):
         for o in r.obligations:
             if o.status not in ("unsat", "trivial"):
                 bad += 1
-                print(f"   FAILED {o.status:8s} {o.kind}::{o.clause} @{o.where} ({o.time_ms:.0f} ms)")
+                print(f"   FAILED {o.status:8s} {o.kind}::{o.clause} @{o.where} ({o.time_ms:.0f} ms)  {o.name.split('::')[-1]}  [{getattr(o, 'backend', '')}] {str(getattr(o, 'model', '') or '')[:120]}")
                 if o.status == "sat" and "-v" in sys.argv:
                     print("      " + (o.model or "").replace("\n", "\n      ")[:1500])
     print(f"total {time.time() - t0:.1f}s, failures={bad}")
